@@ -560,6 +560,23 @@ def is_call_attr(c: ast.Call, attr: str) -> bool:
     return isinstance(c.func, ast.Attribute) and c.func.attr == attr
 
 
+ORDER_ONLY = ("sorted", "list", "tuple", "reversed", "set", "frozenset")
+
+
+def unwrap(e: ast.AST) -> ast.AST:
+    """`sorted(x)`, `list(x)`, ... -> x everywhere in `e` (on a copy): same elements, same emptiness."""
+    class U(ast.NodeTransformer):
+        def visit_Call(self, node: ast.Call) -> ast.AST:  # noqa: N802
+            self.generic_visit(node)
+            if isinstance(node.func, ast.Name) and node.func.id in ORDER_ONLY and len(node.args) == 1 \
+                    and all(k.arg in ("key", "reverse") for k in node.keywords):
+                return node.args[0]
+            return node
+
+    import copy
+    return U().visit(copy.deepcopy(e))
+
+
 def loop_source(cx: Ctx, fn: FuncInfo, defs: dict[str, ast.AST], it: ast.AST) -> tuple[ast.AST, bool]:
     """The collection a sum loop ranges over (`enumerate`, `.items()`/`.keys()` and the fallback-formula
     lookup peeled off) and whether the loop variable comes with an enumerate index."""
@@ -572,7 +589,7 @@ def loop_source(cx: Ctx, fn: FuncInfo, defs: dict[str, ast.AST], it: ast.AST) ->
         e = e.func.value
     if isinstance(e, ast.Call) and method_call(e, "self", "_get_fallback_formulas") and len(e.args) == 1 and not e.keywords:
         e = e.args[0]
-    return e, enumerated
+    return unwrap(e), enumerated
 
 
 def check_emit(run: Run, cx: Ctx) -> None:
@@ -704,6 +721,7 @@ def check_emit(run: Run, cx: Ctx) -> None:
         check_guards(run, cx, fn, cfg, defs, short, heads, [t for _s, t in sources.get(short, [])])
     for helper in cx.dupfree.followed:
         run.analysed(helper.qual)
+        check_source_helper(run, cx, helper)
     if n < 10:
         raise AnalysisError(f"C12.EMIT: only {n} sum loops found")
     # grid power: every grid successor of the admissible categories
@@ -774,7 +792,7 @@ def check_guards(run: Run, cx: Ctx, fn: FuncInfo, cfg: CFG, defs: dict[str, ast.
         collection (or of the collection it is filled from), alone, with nones_are_zeros=True;
       * a summed mapping that starts empty is filled on every iteration of the loop that fills it, and (battery
         power) an inverter is entered only when all batteries behind it are requested."""
-    val = lambda e: cx.value(fn, defs, e)  # noqa: E731
+    val = lambda e: unwrap(cx.value(fn, defs, e))  # noqa: E731
     valc = lambda e: cx.norm(deref(e, defs, containers=True))  # noqa: E731
     fors = [n for n in cfg.nodes if n.kind == "for"]
     iterated = {txt(loop_source(cx, fn, defs, n.ast.iter)[0]) for n in fors} | set(sources)  # type: ignore[union-attr]
@@ -872,6 +890,96 @@ def check_guards(run: Run, cx: Ctx, fn: FuncInfo, cfg: CFG, defs: dict[str, ast.
                       "terms), or an inverter is entered although not all batteries behind it were requested (its "
                       "power is not the power of the requested batteries)", node=fn.node, file=fn.file,
                       instance=f"{short}: {why}")
+
+
+def check_source_helper(run: Run, cx: Ctx, h0: FuncInfo) -> None:
+    """Private helpers that build the collection a sum loop ranges over.
+      * a raise-only branch on a truthiness / size test of the returned (or an iterated) collection is an
+        emptiness guard;
+      * if the helper collects `<m>.component_id` of *the single predecessor* m of each element of a loop (the
+        CHP meters): the loop ranges over exactly the components of one category of the graph, the id is
+        added on every non-raising iteration, and only where m is the only predecessor, is a METER and all its
+        successors are among the looped components (a dedicated meter)."""
+    fn = cx.prep(h0)
+    cfg = CFG(fn.node, fn.file)
+    defs = cx.defs(fn)
+    val = lambda e: unwrap(cx.value(fn, defs, e))  # noqa: E731
+    valc = lambda e: unwrap(cx.norm(deref(e, defs, containers=True)))  # noqa: E731
+    short = f"{fn.cls.name if fn.cls else ''}.{fn.name}"
+    fors = [n for n in cfg.nodes if n.kind == "for"]
+    rets = [n.ast.value for n in cfg.nodes if n.kind == "stmt" and isinstance(n.ast, ast.Return) and n.ast.value is not None]
+    subjects = {txt(val(r)) for r in rets} | {txt(val(n.ast.iter)) for n in fors}  # type: ignore[union-attr]
+    ok = True
+    for edge, test, neg in test_edges(cfg):
+        for a in facts(bcanon(val(test), neg)):
+            em = emptiness(a)
+            subj = em[0] if em else size_subject(a)
+            if subj in subjects and not (em and em[1]) and edge[1] != cfg.exit \
+                    and cfg.path(edge[1], [cfg.exit], edge_ok=normal) is None:
+                ok = False
+    run.check(ok, "C12.EMIT", fn.qual, "refuses to generate only when there is nothing to sum",
+              "a branch that only raises is taken although the collection the helper returns / iterates is not "
+              "empty: no formula is generated for valid graphs", node=fn.node, file=fn.file,
+              instance=f"{short}: raise-only branches are emptiness guards")
+    # collection of dedicated-meter ids
+    names = {u.id for u in (unwrap(r) for r in rets) if isinstance(u, ast.Name)}
+    for name in sorted(names):
+        if name in defs and txt(defs[name]) in ("set()", "[]", "list()", "{}", "dict()"):
+            # a returned collection that starts empty is filled somewhere (else every sum over it is empty)
+            filled = any((isinstance(x, ast.Call) and isinstance(x.func, ast.Attribute) and txt(x.func.value) == name
+                          and x.func.attr in ("add", "append", "update", "extend", "setdefault"))
+                         or (isinstance(x, ast.Assign) and any(isinstance(t, ast.Subscript) and txt(t.value) == name for t in x.targets))
+                         or (isinstance(x, ast.AugAssign) and txt(x.target) == name)
+                         for x in ast.walk(fn.node))
+            run.check(filled, "C12.EMIT", fn.qual, f"the returned collection `{name}` is filled",
+                      "the collection the helper returns starts empty and nothing is ever added to it: the sum over "
+                      "it is always the 0 placeholder although such devices exist", node=fn.node, file=fn.file,
+                      instance=f"{short}: the returned collection is filled")
+    for f in fors:
+        loop = f.ast
+        if not isinstance(loop.target, ast.Name):  # type: ignore[union-attr]
+            continue
+        x = loop.target.id  # type: ignore[union-attr]
+        pred = f"GRAPH.predecessors({x}.component_id)"
+        meters = (f"next(iter({pred}))", f"{pred}.pop()")
+        entry = [m for m, lab in cfg.succ[f.id] if lab == "iter"]
+        body = cfg.reachable(entry, avoid=[f.id] + [m for m, lab in cfg.succ[f.id] if lab == "done"], edge_ok=normal)
+        adds: dict[int, str] = {}
+        for nid in body:
+            a = cfg.nodes[nid].ast
+            if cfg.nodes[nid].kind == "stmt" and isinstance(a, ast.Expr) and isinstance(a.value, ast.Call) \
+                    and isinstance(a.value.func, ast.Attribute) and a.value.func.attr in ("add", "append") \
+                    and txt(a.value.func.value) in names and len(a.value.args) == 1:
+                v = txt(val(a.value.args[0]))
+                for m in meters:
+                    if v == f"{m}.component_id":
+                        adds[nid] = m
+        if not adds:
+            continue
+        coll = valc(loop.iter)  # type: ignore[union-attr]
+        ok = isinstance(coll, (ast.GeneratorExp, ast.ListComp, ast.SetComp)) and len(coll.generators) == 1 \
+            and isinstance(coll.generators[0].target, ast.Name) and txt(coll.elt) == txt(coll.generators[0].target) \
+            and txt(coll.generators[0].iter) == "GRAPH.components()" and bool(coll.generators[0].ifs)
+        if ok:
+            g = coll.generators[0]  # type: ignore[union-attr]
+            cond = g.ifs[0] if len(g.ifs) == 1 else ast.BoolOp(op=ast.And(), values=list(g.ifs))
+            cats = category_set(bcanon(cond), g.target.id)  # type: ignore[union-attr]
+            ok = cats is not None and len(cats) == 1
+        looped = txt(val(loop.iter))  # type: ignore[union-attr]
+        closed = all(m in body or m == f.id for n in body for m, lab in cfg.succ[n] if normal(n, m, lab))
+        ok = ok and closed and all(e in adds or cfg.path(e, [f.id], avoid=adds, edge_ok=normal) is None for e in entry)
+        for nid, m in adds.items():
+            single = edges_establishing(cfg, lambda a: a == ("==", frozenset({"1", f"len({pred})"})), val, within=body)
+            is_meter = edges_establishing(cfg, lambda a, m=m: a == ("==", frozenset({f"{m}.category", METER})), val, within=body)
+            dedicated = edges_establishing(cfg, lambda a, m=m: a == ("all", f"GRAPH.successors({m}.component_id)", ("in", "?0", looped)),
+                                           val, within=body)
+            for es in (single, is_meter, dedicated):
+                ok = ok and bool(es) and not path_avoiding_edges(cfg, entry, [nid], es, avoid=[f.id])
+        run.check(ok, "C12.EMIT", fn.qual, "collects the dedicated meter of every device of one category",
+                  "the ids summed are not `the single predecessor of each device of the category, which is a METER "
+                  "all of whose successors are such devices`, added for every device: the power of that kind would "
+                  "miss devices, include foreign load, or generation is refused for validly metered devices",
+                  node=loop, file=fn.file, instance=f"{short}: dedicated meters of every device")
 
 
 def category_set(c: Any, var: str) -> set[str] | None:
@@ -996,6 +1104,11 @@ CONTROLS = [
      "            chp_meters.add(meter.component_id)\n        return chp_meters\n",
      "            chp_meters.add(meter.component_id)\n        return [m.component_id for c in chps for m in component_graph.predecessors(c.component_id)]\n",
      "C12.EMIT"),
+    ("CHP meter accepted only if it is NOT dedicated", f"{GEN}._chp_power_formula",
+     "            if not all(successor in chps for successor in meter_successors):\n",
+     "            if all(successor in chps for successor in meter_successors):\n", "C12.EMIT"),
+    ("grid successors refused when present", f"{GEN}._formula_generator",
+     "        if not grid_successors:\n            raise ComponentNotFound(", "        if grid_successors:\n            raise ComponentNotFound(", "C12.EMIT"),
     ("pairing loop stops at the first paired device", f"{GEN}._formula_generator",
      "                        fallbacks.setdefault(predecessor, set()).add(component)\n                        continue\n",
      "                        fallbacks.setdefault(predecessor, set()).add(component)\n                        break\n", "C12.METER"),
